@@ -13,6 +13,7 @@ import (
 	"bytes"
 	"fmt"
 	"sort"
+	"strings"
 
 	astisub "github.com/asticode/go-astisub"
 )
@@ -276,7 +277,45 @@ func suiteVttKeyed(R *runner, r *rng) {
 		default:
 			o.Impl = (&enc{}).n(0).bytes(buf.Bytes()).String()
 			h["written"] = buf.String()
+			// the property's own clause, whatever the map keys are: a cue that references a region finds that region
+			// defined earlier in the written document - when the cue's region is one of the map's values
+			if m := vttRegionUseBeforeDefinition(buf.String(), s); m != "" {
+				o.Oracle, o.Sig = m, "vtt-write-region-not-defined"
+			}
 		}
 		R.add(o)
 	}
+}
+
+// scans a written document: "Region: id=<id> ..." lines define, " region:<id>" on a timing line uses
+func vttRegionUseBeforeDefinition(doc string, s *astisub.Subtitles) string {
+	inMap := map[string]bool{}
+	for _, rg := range s.Regions {
+		if rg != nil {
+			inMap[rg.ID] = true
+		}
+	}
+	defined := map[string]bool{}
+	for _, line := range strings.Split(doc, "\n") {
+		if strings.HasPrefix(line, "Region: ") {
+			for _, f := range strings.Fields(line[len("Region: "):]) {
+				if strings.HasPrefix(f, "id=") {
+					defined[f[3:]] = true
+				}
+			}
+			continue
+		}
+		if !strings.Contains(line, " --> ") {
+			continue
+		}
+		for _, f := range strings.Fields(line) {
+			if strings.HasPrefix(f, "region:") {
+				id := f[len("region:"):]
+				if inMap[id] && !defined[id] {
+					return "cue references region " + id + ", which the written document does not define before it"
+				}
+			}
+		}
+	}
+	return ""
 }
